@@ -22,7 +22,7 @@ func init() {
 		ID: "C01",
 		Rule: "each input is lexed to the end and parsed with both grammars (unlimited and under token limits) inside the crash monitor (panic → violation, fatal exit → violation via journal, watchdog → hang rule); " +
 			"oracles: lexer progress (every ReadToken advances, extents within the input, reads ≤ characters+1), parser work from hook counters (peek+next ≤ 64·(bytes+1), lexer reads ≤ 2·(bytes+2)), result shape (document xor error), " +
-			"syntax-error location inside the input (independent line index). Inputs: all 1- and 2-byte strings, all strings ≤3 (quick) / ≤4 (thorough) over a 40-byte hostile alphabet, every prefix / single-byte deletion / substitution of a corpus of rendered documents, " +
+			"syntax-error location inside the input (independent line index). Inputs: all 1- and 2-byte strings, all strings ≤3 (quick) / ≤4 (thorough) over a 40-byte hostile alphabet, every prefix / single-byte deletion / substitution of a corpus of rendered documents, long tokens (1-300 characters: names, ASCII / CJK / accented / emoji strings, block strings, numbers, comments) in 21 contexts where the grammars do not expect them, " +
 			"random token and byte soups to 64 KiB, nesting bombs 1 Ki–64 Ki unlimited and 256 KiB–8 MiB under limits. distinct_nontrivial counts distinct inputs (by construction) that produced at least one token or an error",
 		Assumptions: []string{
 			"\"polynomial time\" is decided on deterministic hook step counts (linear budget with a fixed constant), not on wall-clock time",
@@ -65,6 +65,24 @@ func c01Run(x *core.Ctx) {
 		enumerate(c01Alphabet, l, x.Shard, x.NShards, func(s string) {
 			x.DoLite("src", "src", s, func() { c01Input(x, s, false) })
 		})
+	}
+	// 2b. long tokens where the grammars do not expect them: the error message has to quote (or shorten) the token, and
+	// byte counts and character counts differ for non-ASCII values
+	if x.Shard == x.NShards-1 {
+		var toks []string
+		for _, n := range []int{1, 15, 16, 17, 23, 24, 25, 47, 48, 49, 50, 100, 300} {
+			toks = append(toks,
+				strings.Repeat("n", n), `"`+strings.Repeat("a", n)+`"`, `"`+strings.Repeat("日", n)+`"`, `"`+strings.Repeat("é", n)+`"`, `"`+strings.Repeat("\U0001F600", n)+`"`,
+				`"""`+strings.Repeat("本", n)+`"""`, `"""`+strings.Repeat("x", n)+"\n"+strings.Repeat("é", n)+`"""`, strings.Repeat("7", n), "1."+strings.Repeat("5", n), "#"+strings.Repeat("日", n)+"\n"+strings.Repeat("n", n))
+		}
+		for _, ctx := range []string{"", "{ ", "{ a ", "{ a: ", "query ", "query Q(", "fragment ", "fragment F on ", "extend ", "type T ", "type T { a: ", "type T { a(", "{ a(b: 1) { ", "{ a @", "{ ...", "schema { ", "schema { query: ", "directive @d on ", "union U = ", "enum E { ", "input I { a: Int = "} {
+			for _, t := range toks {
+				for _, tail := range []string{"", " }", " extend type T @d"} {
+					s := ctx + t + tail
+					x.DoLite("src", "src", s, func() { c01Input(x, s, false) })
+				}
+			}
+		}
 	}
 	// 3. corpus derivatives
 	r := x.Rand(uint64(x.Shard))
